@@ -12,3 +12,19 @@ def collect(P):
                 r"let expected_cap = value\.top_n\.max\((\d+)\) \* \d+;")
     P.int_const("TOPN_DESER_CAP_FACTOR", "src/collector/top_score_collector.rs",
                 r"let expected_cap = value\.top_n\.max\(\d+\) \* (\d+);")
+    # block-max WAND (C06): the end-of-postings sentinel and the BM25 constants used by the
+    # F3/F6 witness theorems (own names: pin names are global)
+    import re
+    text = P.src("src/docset.rs")
+    m = re.search(r"pub const TERMINATED: DocId = ([^;]+);", text or "")
+    if m and m.group(1).strip() == "i32::MAX as u32":
+        P.env["WAND_TERMINATED"] = 2 ** 31 - 1
+        P.items.append(("WAND_TERMINATED", "u32", 2 ** 31 - 1, "src/docset.rs", text.count("\n", 0, m.start(1)) + 1))
+    else:
+        P.int_const("WAND_TERMINATED", "src/docset.rs", r"pub const TERMINATED: DocId = ([^;]+);", "u32")
+    bm = "src/query/bm25.rs"
+    P.rational("WAND_BM25_K1", bm, r"^const K1: Score = ([0-9_.]+(?:f32)?);")
+    P.rational("WAND_BM25_B", bm, r"^const B: Score = ([0-9_.]+(?:f32)?);")
+    P.int_const("WAND_MAX_SCORE_FIELDNORM_ID", bm, r"pub fn max_score\(&self\) -> Score \{\s*self\.score\((\d+)u8, [0-9_]+\)")
+    P.int_const("WAND_MAX_SCORE_TF", bm, r"pub fn max_score\(&self\) -> Score \{\s*self\.score\(\d+u8, ([0-9_]+)\)")
+    P.int_table("WAND_FIELD_NORMS_TABLE", "src/fieldnorm/code.rs", r"pub const FIELD_NORMS_TABLE: \[u32; 256\] = \[(.*?)\];")
